@@ -112,8 +112,12 @@ func (f *Formatter) Format(vcl *ast.VCL) io.Reader {
 	for i, decl := range decls {
 		if i > 0 {
 			buf.WriteString("\n")
+			buf.WriteString(decl.Buffer)
+			continue
 		}
-		buf.WriteString(decl.Buffer)
+		// The empty line a declaration had above it is meaningless at the top of the file
+		// (sorting can move such a declaration there) and would vanish on the next pass.
+		buf.WriteString(strings.TrimLeft(decl.Buffer, "\n"))
 	}
 	buf.WriteString("\n")
 
